@@ -11,9 +11,12 @@
       select_notifier  -> ConcreteEngine::OnSelect, then Navigator::OnSelect
       commit_notifier  -> ConcreteEngine::OnCommit (sink -> Session::OnCommit)
       delete_notifier  -> nobody (no Memory component in the modelled schemas)
+    The segmentors of a round are [cf_segmentors cfg] (abc_segmentor,
+    punct_segmentor of gear/punctuator.cc, fallback_segmentor).  CommitHistory is
+    kept in the abstract form [Ctx.hist] (what punctuator.cc reads of it).
       option_update_notifier -> ConcreteEngine::OnOptionUpdate
     Not modelled (unobservable through the session API in the modelled
-    schemas): CommitHistory, message sinks, unhandled_key_notifier, the
+    schemas): message sinks, unhandled_key_notifier, the
     Switcher (no hot keys in the synthetic workspace, so it always returns
     kNoop).
 
@@ -26,6 +29,19 @@ From Coq.Strings Require Import Byte.
 From RimeV Require Import Base.Bytes Eng.Keys Eng.Cand Eng.Menu Eng.Segm Eng.Ctx.
 Import ListNotations.
 
+(** the components a schema lists under engine/processors, segmentors, translators
+    (the ones this model knows; the Switcher, always first, is not listed) *)
+Inductive proc_id := PSpeller | PPunctuator | PSelector | PNavigator | PEditor.
+Inductive segm_id := SgAbc | SgPunct | SgFallback.
+Inductive trans_id := TrPunct | TrMain.   (* TrMain = the schema's other translator(s): Section variable [translate_main] of Trans.v *)
+
+(** a punctuation definition (punctuator/half_shape, full_shape): a scalar, a
+    list of scalars, or a map with the keys [commit] (scalar) and/or [pair] (list) *)
+Inductive pdef :=
+| PdValue (s : bytes)
+| PdList (l : list bytes)
+| PdMap (commit : option bytes) (pair : option (list bytes)).
+
 Record config := mkCfg {
   cf_fluid : bool;            (* fluid_editor (true) or express_editor (false) *)
   cf_alphabet : bytes;        (* speller/alphabet *)
@@ -37,7 +53,16 @@ Record config := mkCfg {
   cf_select_keys : bytes;     (* menu/alternative_select_keys *)
   cf_page_down_cycle : bool;  (* menu/page_down_cycle *)
   cf_del_checked : bool;      (* source fact: Context::DeleteCandidate looks the candidate up first *)
-  cf_dlog : bool              (* build fact: DLOG statements are evaluated (Debug build) *)
+  cf_dlog : bool;             (* build fact: DLOG statements are evaluated (Debug build) *)
+  cf_processors : list proc_id;   (* engine/processors *)
+  cf_segmentors : list segm_id;   (* engine/segmentors *)
+  cf_translators : list trans_id; (* engine/translators (read by Trans.v: all_translate) *)
+  cf_punct_half : list (byte * pdef);  (* punctuator/half_shape: single printable ASCII keys *)
+  cf_punct_full : list (byte * pdef);  (* punctuator/full_shape *)
+  cf_punct_use_space : bool;      (* punctuator/use_space *)
+  cf_digit_seps : bytes;          (* punctuator/digit_separators (default ",.:'") *)
+  cf_digit_sep_commit : bool;     (* punctuator/digit_separator_action == "commit" *)
+  cf_hist_guard : bool            (* source fact: CommitHistory::Push(composition, input) never reads [last] after a later Push may have popped it *)
 }.
 
 (** Session + engine + navigator state. *)
@@ -45,11 +70,12 @@ Record state := mkSt {
   st_ctx : context;
   st_nav_input : bytes;     (* Navigator::input_ *)
   st_spans : list nat;      (* Navigator::spans_ (sorted vertices) *)
-  st_commit : bytes         (* Session::commit_text_ *)
+  st_commit : bytes;        (* Session::commit_text_ *)
+  st_odd : list (bool * byte * bool)  (* Punctuator::oddness_: (definition = (full_shape?, key), oddness = 1) *)
 }.
 
 Definition st_with_ctx (s : state) (c : context) : state :=
-  mkSt c (st_nav_input s) (st_spans s) (st_commit s).
+  mkSt c (st_nav_input s) (st_spans s) (st_commit s) (st_odd s).
 
 Section Engine.
 Variable cfg : config.
@@ -96,21 +122,74 @@ Definition fallback_proceed (sg : segmentation) : segmentation :=
       | [] => fst (add_segment (fst (forward sg1)) (seg_with_tags (new_segment k (S k)) [TRaw]))
       end.
 
-(** ---- ConcreteEngine::CalculateSegmentation ---- ([caret] is context_->caret_pos()) *)
-Fixpoint calc_loop (fuel caret : nat) (sg : segmentation) : segmentation * bool :=
+(** ---- PunctConfig (punctuator.cc) ---- [LoadConfig] is called before every
+    lookup, so the mapping in force is the one of the current [full_shape] option *)
+Fixpoint pd_assoc (l : list (byte * pdef)) (b : byte) : option pdef :=
+  match l with
+  | [] => None
+  | (k, d) :: r => if Byte.eqb k b then Some d else pd_assoc r b
+  end.
+Definition punct_lookup (opts : list (bytes * bool)) (b : byte) : option pdef :=
+  pd_assoc (if opts_get opts opt_full_shape then cf_punct_full cfg else cf_punct_half cfg) b.
+(** [char ch; ch < 0x20 || ch >= 0x7f] on a (signed) char *)
+Definition printable (b : byte) : bool := let n := N_of_byte b in ((32 <=? n) && (n <? 127))%N.
+Definition is_digit_separator (b : byte) : bool := mem_byte b (cf_digit_seps cfg).
+(** [is_after_number(ctx)] *)
+Definition is_after_number (h : hist) : bool :=
+  match h with
+  | Some (ty, d) => d && (bytes_eqb ty ty_thru || bytes_eqb ty ty_raw)
+  | None => false
+  end.
+
+(** ---- PunctSegmentor::Proceed ---- second component: the return value
+    ([false] = no other segmentor is asked in this round) *)
+Definition punct_proceed (opts : list (bytes * bool)) (h : hist) (sg : segmentation) : segmentation * bool :=
+  let k := cur_start sg in
+  match nth_error (sg_input sg) k with
+  | None => (sg, false)              (* k == input.length() *)
+  | Some ch =>
+    if negb (printable ch) then (sg, true)
+    else match punct_lookup opts ch with
+         | None => (sg, true)
+         | Some _ =>
+           let t := if (k =? 0) && is_digit_separator ch && is_after_number h then TPunctNumber else TPunct in
+           (fst (add_segment sg (seg_with_tags (new_segment k (S k)) [t])), false)
+         end
+  end.
+
+(** one round of the [for (auto& segmentor : segmentors_) if (!Proceed) break;] loop *)
+Definition segmentor_proceed (opts : list (bytes * bool)) (h : hist) (i : segm_id) (sg : segmentation)
+  : segmentation * bool :=
+  match i with
+  | SgAbc => (abc_proceed sg, true)
+  | SgPunct => punct_proceed opts h sg
+  | SgFallback => (fallback_proceed sg, false)
+  end.
+Fixpoint run_segmentors (opts : list (bytes * bool)) (h : hist) (l : list segm_id) (sg : segmentation) : segmentation :=
+  match l with
+  | [] => sg
+  | i :: r => let (sg1, cont) := segmentor_proceed opts h i sg in
+              if cont then run_segmentors opts h r sg1 else sg1
+  end.
+Definition seg_round (opts : list (bytes * bool)) (h : hist) (sg : segmentation) : segmentation :=
+  run_segmentors opts h (cf_segmentors cfg) sg.
+
+(** ---- ConcreteEngine::CalculateSegmentation ---- ([caret] is context_->caret_pos();
+    [opts], [h]: the context's options and commit history, read by punct_segmentor) *)
+Fixpoint calc_loop (opts : list (bytes * bool)) (h : hist) (fuel caret : nat) (sg : segmentation) : segmentation * bool :=
   if has_finished sg then (sg, true)
   else match fuel with
        | 0 => (sg, false)
        | S f =>
          let start_pos := cur_start sg in
-         let sg2 := fallback_proceed (abc_proceed sg) in
+         let sg2 := seg_round opts h sg in
          if start_pos =? cur_end sg2 then (sg2, true)
          else if caret <=? start_pos then (sg2, true)
-         else calc_loop f caret (if has_finished sg2 then sg2 else fst (forward sg2))
+         else calc_loop opts h f caret (if has_finished sg2 then sg2 else fst (forward sg2))
        end.
 
-Definition calc_segmentation (caret : nat) (sg : segmentation) : segmentation * bool :=
-  let (sg1, ok) := calc_loop (S (length (sg_input sg))) caret sg in
+Definition calc_segmentation (opts : list (bytes * bool)) (h : hist) (caret : nat) (sg : segmentation) : segmentation * bool :=
+  let (sg1, ok) := calc_loop opts h (S (length (sg_input sg))) caret sg in
   let sg2 := match sg_segs sg1 with
              | g :: _ => if has_tag TPlaceholder (s_tags g) then sg1 else fst (trim sg1)
              | [] => sg1
@@ -145,7 +224,7 @@ Definition compose (c : context) : context :=
   let sg := reset_input (cx_comp c) active_input in
   let sg := if (cx_caret c <? length (cx_input c)) && (cx_caret c =? confirmed_pos sg)
             then reset_input sg (cx_input c) else sg in
-  let (sg1, okf) := calc_segmentation (cx_caret c) sg in
+  let (sg1, okf) := calc_segmentation (cx_opts c) (cx_hist c) (cx_caret c) sg in
   let (sg2, oks) := translate_segs (cx_opts c) sg1 in
   ctx_check (ctx_check (ctx_with_comp c sg2) okf ErrFuel) oks ErrSubstr.
 
@@ -171,7 +250,7 @@ Definition delete_input (c : context) (len : nat) : context * bool :=
 (** [Context::Clear]: [composition_.clear()] empties the vector but keeps
     Segmentation::input_ *)
 Definition clear (c : context) : context :=
-  compose (mkCtx [] 0 (sg_with_segs (cx_comp c) []) (cx_opts c) (cx_err c)).
+  compose (mkCtx [] 0 (sg_with_segs (cx_comp c) []) (cx_opts c) (cx_err c) (cx_hist c)).
 
 Definition set_caret_pos (c : context) (pos : nat) : context :=
   compose (ctx_with_input c (cx_input c) (if length (cx_input c) <? pos then length (cx_input c) else pos)).
@@ -261,13 +340,16 @@ Definition format_text (c : context) (text : bytes) : bytes :=
 
 (** [Engine::sink_] -> Session::OnCommit *)
 Definition sink (s : state) (text : bytes) : state :=
-  mkSt (st_ctx s) (st_nav_input s) (st_spans s) (st_commit s ++ text).
+  mkSt (st_ctx s) (st_nav_input s) (st_spans s) (st_commit s ++ text) (st_odd s).
 
 (** [Context::Commit] with ConcreteEngine::OnCommit *)
 Definition commit (s : state) : state * bool :=
   let c := st_ctx s in
   if negb (is_composing c) then (s, false)
   else
+    (* OnCommit: commit_history().Push(composition, input) first *)
+    let '(h, okh, live) := hist_push_comp (cf_hist_guard cfg) (cx_hist c) (cx_comp c) (cx_input c) in
+    let c := ctx_check (ctx_check (ctx_with_hist c h) okh ErrSubstr) live ErrDangling in
     let (text, ok) := ctx_commit_text c in
     let s1 := sink (st_with_ctx s (ctx_check c ok ErrSubstr)) (format_text c text) in
     (st_with_ctx s1 (clear (st_ctx s1)), true).
@@ -293,7 +375,7 @@ Definition on_select (s : state) : state :=
         then st_with_ctx s (set_caret_pos c1 (length (cx_input c1)))
         else st_with_ctx s (compose c1)
     end in
-  mkSt (st_ctx s') (st_nav_input s') [] (st_commit s').
+  mkSt (st_ctx s') (st_nav_input s') [] (st_commit s') (st_odd s').
 
 (** [Context::Select(index)] *)
 Definition select (s : state) (index : N) : state * bool :=
